@@ -243,8 +243,11 @@ class PullOffSuite(PairedSuite):
 
 # ============================================================================= C13 / C12 / C14: sessions with humans on a line
 def line_session(rng, *, kind, inertia, ratio=1, offset=0, human_leads=None, n=None, nrows=10, max_bells=15,
-                 peal=None, tempo_change=None, early_ms=0, initial_inertia=0, jitter_us=0, n_humans=None):
-    """Humans strike perfectly evenly on their own line t = A + B * blow."""
+                 peal=None, tempo_change=None, early_ms=0, initial_inertia=0, jitter_us=0, n_humans=None,
+                 prelude=None):
+    """Humans strike perfectly evenly on their own line t = A + B * blow.
+    prelude = ratio: the session is the SECOND touch on the same rhythm object; in a first touch of six
+    rows the same humans rang evenly at `ratio` times the configured interval, then 'Stand next'."""
     n = n or rng.choice([4, 6, 8, 10])
     spec = {"kind": "plain_hunt", "stage": n, "custom": None}
     rows = probe_rows(spec, n, nrows)
@@ -260,11 +263,23 @@ def line_session(rng, *, kind, inertia, ratio=1, offset=0, human_leads=None, n=N
     gap = 1.0
     iv = blow_interval(peal, n)
     look_to = Fraction(rng.randint(15, 40), 100) + Fraction(1, 1000)
-    a0 = look_to + 3 + Fraction(offset)
-    b0 = iv * Fraction(ratio)
     evs = [ev(0, "global", [True] * n), ev(Fraction(3, 100), "user_entered", 11, "Alice")]
     for b in sorted(humans):
         evs.append(ev(Fraction(5, 100) + Fraction(b, 10000), "assign", b, 11))
+    if prelude is not None:
+        look1 = Fraction(211, 1000)
+        evs.append(ev(look1, "call", "Look to"))
+        b1 = iv * Fraction(prelude)
+        for r, row in enumerate(probe_rows(spec, n, 6)):
+            for p, bell in enumerate(row):
+                if bell in humans:
+                    evs.append(ev(look1 + 3 + b1 * (r * n + p + (r // 2) * Fraction(gap)) + Fraction(37 + 3 * p, 10 ** 6), "ring", bell))
+        evs.append(ev(look1 + 3 + b1 * (4 * n + 2) + Fraction(1, 10 ** 5), "call", "Stand next"))
+        t_end = look1 + 3 + max(b1, iv) * (6 * n + 4) + 2
+        evs.append(ev(t_end, "global", [True] * n))
+        look_to = t_end + Fraction(1, 2) + look_to
+    a0 = look_to + 3 + Fraction(offset)
+    b0 = iv * Fraction(ratio)
     evs.append(ev(look_to, "call", "Look to"))
     human_blows = []
     line = (a0, b0)
@@ -297,7 +312,8 @@ def line_session(rng, *, kind, inertia, ratio=1, offset=0, human_leads=None, n=N
     sc = base(spec, n, rh, evs, horizon)
     return sc, {"n": n, "humans": sorted(humans), "iv": fstr(iv), "lines": [[fstr(x) for x in l] for l in lines],
                 "look_to": fstr(look_to), "human_blows": [[r, p, b, fstr(t)] for (r, p, b, t) in human_blows],
-                "gap": gap, "max": max_bells, "tol": fstr(Fraction(3, 1000) if jitter_us else TOL)}
+                "gap": gap, "max": max_bells, "tol": fstr(Fraction(3, 1000) if jitter_us else TOL),
+                "after": fstr(look_to if prelude is not None else 0)}
 
 
 def perturb_events(sc, moves):
@@ -322,8 +338,10 @@ class InertiaOneSuite(PairedSuite):
 
     def scenarios(self, rng, tier):
         for i in range(60 if tier == "quick" else 600):
+            # (also a lone human, on the treble or not: the first regression then falls after the first whole pull)
             a, orc = line_session(rng, kind="regression", inertia=1.0, ratio=rng.choice([1, Fraction(103, 100)]),
-                                  nrows=8, jitter_us=rng.choice([0, 100]))
+                                  nrows=8, jitter_us=rng.choice([0, 100]), n_humans=rng.choice([None, None, 1, 1]),
+                                  max_bells=rng.choice([15, 15, 8, 30]))
             iv, n = Fraction(orc["iv"]), orc["n"]
             moves = {}
             count = {}
@@ -400,12 +418,15 @@ class TempoSuite(PairedSuite):
             offset = Fraction(rng.randint(-30, 40), 100) if leads else 0
             mb = rng.choice([5, 8, 15, 30])
             jit = rng.choice([0, 100])
+            # a third of the sessions are the second touch of a rhythm object that followed the same humans
+            # at a different tempo in a first touch (nothing of which may survive Look to)
+            pre = rng.choice([None, None, Fraction(92, 100), Fraction(109, 100)])
             if mode == "exact":
                 a, orc = line_session(rng, kind="regression", inertia=0.0, ratio=ratio, offset=offset,
-                                      human_leads=leads, nrows=8, max_bells=mb, jitter_us=jit)
+                                      human_leads=leads, nrows=8, max_bells=mb, jitter_us=jit, prelude=pre)
             elif mode == "geometric":
                 a, orc = line_session(rng, kind="regression", inertia=rng.choice([0.1, 0.3, 0.5]), ratio=ratio,
-                                      offset=offset, human_leads=leads, nrows=16, max_bells=mb, jitter_us=jit)
+                                      offset=offset, human_leads=leads, nrows=16, max_bells=mb, jitter_us=jit, prelude=pre)
             elif mode == "fixed":
                 a, orc = line_session(rng, kind="regression", inertia=rng.choice([0.0, 0.3, 0.7, 1.0]), ratio=1,
                                       offset=0, human_leads=False, nrows=8, max_bells=mb, jitter_us=jit)
@@ -429,7 +450,8 @@ class TempoSuite(PairedSuite):
             return None
         orc = case["oracle"]
         n, gap = orc["n"], Fraction(orc["gap"])
-        ws = wheatley_strikes(out["a"])
+        after = Fraction(orc.get("after", 0))
+        ws = [x for x in wheatley_strikes(out["a"]) if x[3] >= after]
         lines = [(Fraction(x), Fraction(a), Fraction(b)) for x, a, b in orc["lines"]]
 
         def human_line(blow):
@@ -440,7 +462,7 @@ class TempoSuite(PairedSuite):
             return cur[1] + cur[2] * blow
         waits = {}
         for it in out["a"]["trace"]:
-            if it[1] == "r_wait":
+            if it[1] == "r_wait" and Fraction(it[0]) >= after:
                 waits[(it[4], it[5])] = Fraction(it[0])
         hb = [(r, p, b, Fraction(t)) for r, p, b, t in orc["human_blows"]]
         TOLX = Fraction(orc["tol"])
@@ -500,6 +522,44 @@ class HoldUpSuite(PairedSuite):
             holdups = [(j, Fraction(rng.choice([3, 13, 47, 250, 1230, 3001, 11003]), 1000) + Fraction(1, 7919))]
             if rng.random() < 0.3:
                 holdups.append((min(len(hb) - 2, j + rng.randint(2, 6)), Fraction(rng.choice([17, 333]), 1000) + Fraction(1, 7907)))
+            two = rng.random() < 0.4
+            speed = None
+            if not two and rng.random() < 0.5:
+                holdups = [(jj, d if d > Fraction(1, 5) else d + Fraction(rng.choice([250, 1230, 3001]), 1000)) for jj, d in holdups]
+                # server mode: after the last hold-up somebody changes the peal speed; from then on the (punctual)
+                # humans ring at the new speed.  In the held-up session all of that simply happens D later.
+                a = copy.deepcopy(a)
+                start = Fraction(orc["look_to"]) + 3
+                last = max(jj for jj, _d in holdups)
+                r_l, p_l = hb[last][0], hb[last][1]
+                x_c = r_l * n + p_l + (r_l // 2) + n + Fraction(37, 100)        # blow position of the change
+                t_c = start + iv * x_c
+                v = rng.choice([150, 165, 200, 210])
+                iv2 = blow_interval(v, n)
+                a.update({"name": "Wheatley", "instance": 5})
+                wheatley_bells = [b for b in range(1, n + 1) if b not in orc["humans"]]
+                extra = [ev(Fraction(11, 1000), "user_entered", 1, "Wheatley")]
+                extra += [ev(Fraction(12, 1000) + Fraction(b, 100000), "assign", b, 1) for b in wheatley_bells]
+                new_hb, evs2, k = [], [], 0
+                ring_times = {}
+                for (r, p, b, t) in hb:
+                    x = r * n + p + (r // 2)
+                    t2 = Fraction(t) if x < x_c else t_c + (x - x_c) * iv2 - Fraction(5, 1000) + Fraction(20 + (7 * r + 3 * p) % 50, 10 ** 9)
+                    new_hb.append([r, p, b, fstr(t2)])
+                    ring_times.setdefault(b, []).append(t2)
+                seen = {}
+                for t, e in a["events"]:
+                    if e[0] == "ring":
+                        i_b = seen.get(e[1], 0)
+                        seen[e[1]] = i_b + 1
+                        evs2.append([fstr(ring_times[e[1]][i_b]), e])
+                    else:
+                        evs2.append([t, e])
+                a["events"] = sorted_events(evs2 + extra + [ev(t_c, "setting", [["peal_speed", v]])])
+                a["horizon"] = fstr(t_c + iv2 * (7 * n + 4 - x_c) + Fraction(1, 3000))
+                hb = new_hb
+                orc = dict(orc, human_blows=hb)
+                speed = [fstr(t_c), v]
             moves = {}
             total = Fraction(0)
             count = {}
@@ -511,7 +571,6 @@ class HoldUpSuite(PairedSuite):
                         total += d
                 if total:
                     moves[(b, i_b)] = Fraction(t) + total
-            two = rng.random() < 0.4
             if two:
                 # a second touch in the same session: Stand, then Look to again; nobody is late any more
                 iv_, n_ = Fraction(orc["iv"]), orc["n"]
@@ -541,8 +600,13 @@ class HoldUpSuite(PairedSuite):
             else:
                 b_sc = perturb_events(a, moves)
                 b_sc["horizon"] = fstr(Fraction(a["horizon"]) + total)
+                if speed is not None:
+                    for item in b_sc["events"]:
+                        if item[1][0] == "setting":
+                            item[0] = fstr(Fraction(item[0]) + total)
+                    b_sc["events"] = sorted_events(b_sc["events"])
             yield {"a": a, "b": b_sc, "pick": "b" if i % 2 else "a",
-                   "oracle": dict(orc, two=two, holdups=[[hb[jj][0], hb[jj][1], fstr(d)] for jj, d in holdups])}
+                   "oracle": dict(orc, two=two, speed=speed, holdups=[[hb[jj][0], hb[jj][1], fstr(d)] for jj, d in holdups])}
 
     def cases(self, rng, tier):
         yield from self.scenarios(rng, tier)
@@ -567,7 +631,13 @@ class HoldUpSuite(PairedSuite):
             k = len(before)
             d = sum(before, Fraction(0)) - k * Fraction(5, 1000)
             shift = t - xa[3]
-            if not (max(d, 0) - TOL <= shift <= max(d, 0) + k * Fraction(1, 100) + TOL):
+            slack = Fraction(0)
+            if case["oracle"].get("speed"):
+                # the change of speed is delivered D_human later, Wheatley was held up by D_human - 5 ms rounded up
+                # to the polling grid: the two differ by < 6 ms per hold-up, which the new line scales by |1 - i2/i1|
+                i1, i2 = Fraction(case["oracle"]["iv"]), blow_interval(case["oracle"]["speed"][1], n)
+                slack = k * Fraction(6, 1000) * abs(1 - i2 / i1)
+            if not (max(d, 0) - TOL - slack <= shift <= max(d, 0) + k * Fraction(1, 100) + TOL + slack):
                 return (f"after hold-ups totalling {float(d):.3f}s, the strike of row {r} place {p} came "
                         f"{float(shift):.4f}s later than in the punctual run")
         return None
@@ -635,8 +705,11 @@ class ProgressSuite(PairedSuite):
             evs.append(ev(look_to, "call", "Look to"))
             style = rng.choice(["punctual", "lagging", "erratic", "early", "absent" if kind == "regression" else "lagging"])
             shift = Fraction(0)
+            shift_at_last = Fraction(0)
             awaited = []
             for r, row in enumerate(rows):
+                if r == nrows - 2:
+                    shift_at_last = shift
                 for p, bell in enumerate(row):
                     if bell not in humans or style == "absent":
                         continue
@@ -668,10 +741,27 @@ class ProgressSuite(PairedSuite):
             rh = {"kind": kind, "inertia": rng.choice([0.5, 1.0]), "peal_speed": peal, "gap": 1.0, "max": 15}
             if style == "lagging":      # regression inert, so that "one interval after the hold-up" is exact
                 rh.update({"inertia": 1.0, "initial_inertia": 1.0})
+            second = None
+            if size_change is None and humans and style in ("lagging", "erratic", "punctual") and rng.random() < 0.5:
+                # the band stands and rings a second touch, punctually this time: Wheatley (on the treble) must pull
+                # off at Look to + 3 s however much it had to wait in the first touch
+                t_stand = start + shift_at_last + iv * ((nrows - 2) * n + (nrows - 2) // 2) + Fraction(1, 1000)
+                evs.append(ev(t_stand, "call", "Stand next"))
+                t_end = start + shift + iv * (nrows * n + nrows // 2) + 1
+                evs.append(ev(t_end, "global", [True] * n))
+                look2 = t_end + Fraction(rng.randint(50, 90), 100) + Fraction(1, 1000)
+                evs.append(ev(look2, "call", "Look to"))
+                for r, row in enumerate(probe_rows(spec, n, 2)):
+                    for p, bell in enumerate(row):
+                        if bell in humans:
+                            evs.append(ev(look2 + 3 + iv * (r * n + p) - Fraction(5, 1000) + Fraction(rng.randint(1, 999), 10 ** 7), "ring", bell))
+                horizon = look2 + 3 + iv * (2 * n) + Fraction(1, 3000)
+                rh.update({"inertia": 1.0, "initial_inertia": 1.0})
+                second = fstr(look2)
             a = base(spec, n, rh, evs, horizon)
             yield {"a": a, "oracle": {"n": n, "nrows": nrows, "humans": sorted(humans), "style": style, "kind": kind,
                                       "iv": fstr(iv), "size_change": size_change, "awaited": awaited,
-                                      "look_to": fstr(look_to)}}
+                                      "look_to": fstr(look_to), "second": second}}
 
     def cases(self, rng, tier):
         yield from self.scenarios(rng, tier)
@@ -691,6 +781,18 @@ class ProgressSuite(PairedSuite):
             return (f"{orc['style']} band, {orc['kind']} mode: only {len(rows)} of {orc['nrows']} rows were completed "
                     f"although every human rang every blow")
         ws = wheatley_strikes(o)
+        if orc.get("second"):
+            look2 = Fraction(orc["second"])
+            later = [x for x in ws if x[3] >= look2]
+            ws = [x for x in ws if x[3] < look2]
+            if not later:
+                return (f"second touch: Wheatley (on the treble) had not struck {float(Fraction(case['a']['horizon']) - look2):.2f}s "
+                        f"after Look to; its pull-off was due 3 s after it")
+            for (r, p, b, t) in later:
+                want = look2 + 3 + iv * (r * n + p)
+                if not (want - TOL <= t <= want + Fraction(5, 100)):
+                    return (f"second touch, punctual band: row {r} place {p} struck {float(t - want):+.3f}s from its scheduled "
+                            f"moment (Look to + 3 s + {r * n + p} intervals)")
         if orc["kind"] == "regression" and orc["style"] == "absent":
             t0 = Fraction(orc["look_to"]) + 3
             for (r, p, b, t) in ws:
